@@ -76,7 +76,13 @@ def problems(rng, tier):
         'Dump': {'coolant': True, 'interval': 0.1},
         'AssemblyTables': {'t1': {'type': 'coolant_subchannel',
                                   'assemblies': [1],
-                                  'axial_positions': [0.3, 0.45]}}})
+                                  'axial_positions': [0.3, 0.45]},
+                           # more than one table: every table's heights are
+                           # lengths of their own (seed C17-14)
+                           't2': {'type': 'duct_mw', 'assemblies': [1],
+                                  'axial_positions': [0.2, 0.5, 0.07]},
+                           't3': {'type': 'coolant_pin', 'assemblies': [1],
+                                  'axial_positions': [0.41]}}})
     out.append(('single-all-keys', c, True))
     c2 = copy.deepcopy(c)
     del c2['setup']['Dump']
